@@ -22,7 +22,10 @@ type TypeMethod struct {
 	Name              string
 	Inputs            []MethodType
 	Outputs           []MethodType
-	ReceiverIsPointer bool // true if receiver is *T, false if T
+	ReceiverIsPointer bool // true if the method is only in the method set of *T, false if it is in the method set of T
+
+	// Sig is the method's signature as seen by the type checker (nil for hand-built models)
+	Sig *types.Signature
 }
 
 // MethodType represents a type in method signature
@@ -134,19 +137,29 @@ func extractMethodsFromNamedType(named *types.Named) []TypeMethod {
 	ptrType := types.NewPointer(named)
 	methodSet := types.NewMethodSet(ptrType)
 
+	// The method set of T itself decides whether a method is usable through a value:
+	// methods promoted through an embedded *E belong to it although E's receiver is a pointer.
+	valueMethodSet := types.NewMethodSet(named)
+
+	// A pointer to an interface type has no methods: use the interface's own method set
+	if _, isInterface := named.Underlying().(*types.Interface); isInterface {
+		methodSet = valueMethodSet
+	}
+
 	for i := 0; i < methodSet.Len(); i++ {
 		selection := methodSet.At(i)
 		method := selection.Obj().(*types.Func)
 		sig := method.Type().(*types.Signature)
 
-		// Determine if receiver is pointer
-		recvIsPointer := isPointerReceiver(sig.Recv().Type())
+		// Determine if the method needs a pointer (it is not in the method set of the value type)
+		recvIsPointer := valueMethodSet.Lookup(method.Pkg(), method.Name()) == nil
 
 		methods = append(methods, TypeMethod{
 			Name:              method.Name(),
 			Inputs:            extractMethodTypesFromTuple(sig.Params(), sig.Variadic()),
 			Outputs:           extractMethodTypesFromTuple(sig.Results(), false),
 			ReceiverIsPointer: recvIsPointer,
+			Sig:               sig,
 		})
 	}
 
